@@ -2,13 +2,18 @@
 """Run every quick check against /repo HEAD + a (supposedly behaviour-preserving) patch: any VIOLATION is either a
 mistake in the refactoring or an over-reach of ours - to be triaged by hand.
 
-usage: tools/refactor_check.py <patch.diff> [ID,ID,...]"""
+usage: tools/refactor_check.py <patch.diff> [ID,ID,...] [--base <repo-commit>]   (default base: /repo HEAD)"""
 import json, os, shutil, subprocess, sys, tempfile
-patch = os.path.abspath(sys.argv[1])
-ids = sys.argv[2].split(",") if len(sys.argv) > 2 else [f"C{i:02d}" for i in range(1, 21)]
+args = sys.argv[1:]
+base = "HEAD"
+if "--base" in args:
+    base = args[args.index("--base") + 1]
+    del args[args.index("--base"):args.index("--base") + 2]
+patch = os.path.abspath(args[0])
+ids = args[1].split(",") if len(args) > 1 else [f"C{i:02d}" for i in range(1, 21)]
 tmp = tempfile.mkdtemp(prefix="rf-")
 try:
-    subprocess.run(f"git -C /repo archive HEAD | tar -x -C {tmp}", shell=True, check=True)
+    subprocess.run(f"git -C /repo archive {base} | tar -x -C {tmp}", shell=True, check=True)
     r = subprocess.run(f"patch -p1 -s < {patch}", shell=True, cwd=tmp)
     if r.returncode:
         print("PATCH DOES NOT APPLY"); sys.exit(3)
